@@ -31,7 +31,7 @@ CLANG = 'clang++-14'
 CLANG_FLAGS = ['-std=c++14', '-O1', '-fno-exceptions', '-fno-rtti', '-fno-vectorize', '-fno-slp-vectorize',
                '-fno-unroll-loops', '-fno-inline', '-D' + GUARD, '-I' + os.path.join(REPO, 'include'), '-I' + RT, '-I' + HDIR,
                '-S', '-emit-llvm', '-w']
-GXX_FLAGS = ['-std=c++14', '-D' + GUARD, '-I' + os.path.join(REPO, 'include'), '-I' + RT, '-I' + HDIR, '-w']
+GXX_FLAGS = ['-std=c++14', '-DVRT_REAL_STREAMS', '-D' + GUARD, '-I' + os.path.join(REPO, 'include'), '-I' + RT, '-I' + HDIR, '-w']
 CBMC_BASE = ['--object-bits', '12', '--unwinding-assertions', '--slice-formula', '--drop-unused-functions', '--pointer-overflow-check',
              '--undefined-shift-check', '--json-ui', '--verbosity', '4']
 JOBS = int(os.environ.get('VERIF_JOBS', '16'))
@@ -407,6 +407,8 @@ class Check:
     def want(self, h):
         only = os.environ.get('VERIF_ONLY')
         if only and not re.search(only, h): return False
+        flt = getattr(self, 'harness_filter', None)
+        if flt and not flt(h): return False
         return h.startswith('hq_') or (self.tier == 'thorough' and h.startswith('ht_'))
 
     def add_tu(self, src, defs=(), tag=None):
